@@ -7,10 +7,16 @@ Direct: the implementation-only predicate of the property statement (weakest rea
 import copy, logging
 from core import Case
 from pyerr import exc_code
+import os, sys
 import vnet, valgen
+sys.path.insert(0, os.path.join(os.path.dirname(os.path.dirname(os.path.dirname(os.path.abspath(__file__)))), 'translator'))
+import gen_objtables as G
+from gen_objtables import (KEEP, ERRNAME, DEV_PIDS, code, cid, classes, atom_code, abs_elem, sdt_of, proto_of, dt_of,
+                           q_opt, q_elem, q_sdt, q_dt, q_bool, pid_num, _CODES, _CIDS)
 
 PROP = 'C15'
-COQ_TARGETS = ['theories/ObjFacts.vo', 'theories/ObjRw.vo', 'theories/ObjRpm.vo']
+COQ_TARGETS = ['theories/ObjFacts.vo', 'theories/ObjRw.vo', 'theories/ObjRpm.vo', 'gen/ObjTables.vo', 'theories/ObjTablesFacts.vo']
+TABLE_OBLIGATIONS = ['all_tables_ok']
 COQ_IMPORTS = 'From Bac Require Import Base Obj.\nFrom BacGen Require Import ObjTables.'
 RULE = ('histories: a device with 2-3 objects drawn from the 63 registered object types (the registered class itself, or a '
         'subclass re-declaring every property mutable), about half of the properties initialised with values generated from '
@@ -32,30 +38,32 @@ ASSUMPTIONS = ['no property monitors / COV services are attached (Property.Write
                'property classes overriding ReadProperty/WriteProperty (local device object, ObjectIdentifierProperty with a foreign '
                'object type, commandable objects of local/object.py) are outside the model; priority is ignored by Property.WriteProperty']
 
-KEEP = ('objectIdentifier', 'objectName', 'objectType', 'propertyList')
-ERRNAME = {1: 'DecodingError', 2: 'InvalidTag', 3: 'MissingRequired', 4: 'InvalidParameterDatatype', 5: 'TooManyArguments',
-           6: 'EncodingError', 7: 'ValueErr', 8: 'TypeErr', 9: 'KeyErr', 10: 'IndexErr', 11: 'AttrErr', 12: 'StructErr',
-           13: 'OverflowErr', 14: 'NameErr', 15: 'RuntimeErr', 16: 'UnicodeErr', 17: 'OutOfFuel', 18: 'OtherErr',
-           100: '(RejectExc 0)', 200: '(AbortExc 0)'}
-
-_CODES, _CIDS, _MUT = {}, {}, {}
 _ENV = {}
+_TABLES = {}
+TABLE_TEXT_DIFFERS = []
 
 
-def code(key):
-    return _CODES.setdefault(key, len(_CODES) + 1)
-
-
-def cid(cls):
-    return _CIDS.setdefault(cls, len(_CIDS) + 1)
+def tables():
+    """class -> table name of coq/gen/ObjTables.v.  The generator (translator/gen_objtables.py, run by the translator in a
+    subprocess) is run here in-process, first thing, so that class ids and prototype codes are the generated file's; the two
+    texts must be equal (else the correspondence is reported as broken)."""
+    if not _TABLES:
+        text, names = G.build()
+        _TABLES.update(names)
+        import core
+        path = os.path.join(core.COQ, 'gen', 'ObjTables.v')
+        old = open(path).read() if os.path.exists(path) else None
+        if old != text:
+            TABLE_TEXT_DIFFERS.append('coq/gen/ObjTables.v differs from what the imported classes give')
+    return _TABLES
 
 
 def B():
     """lazy import of the implementation names used here"""
-    if 'P' not in _ENV:
-        from bacpypes import primitivedata as P, constructeddata as C, object as O, apdu as A, basetypes as T
+    if 'services' not in _ENV:
+        _ENV.update(G.env())
         from bacpypes.service.object import ReadWritePropertyServices, ReadWritePropertyMultipleServices
-        _ENV.update(P=P, C=C, O=O, A=A, T=T, services=[ReadWritePropertyServices, ReadWritePropertyMultipleServices])
+        _ENV.update(services=[ReadWritePropertyServices, ReadWritePropertyMultipleServices])
         logging.getLogger('bacpypes').setLevel(logging.CRITICAL + 10)
         for name in list(logging.root.manager.loggerDict):
             if name.startswith('bacpypes'):
@@ -65,107 +73,7 @@ def B():
     return _ENV
 
 
-def classes():
-    """{object type: (registered class, all-mutable subclass)}"""
-    O = B()['O']
-    if not _MUT:
-        for (otype, vid), cls in sorted(O.registered_object_types.items(), key=lambda kv: str(kv[0])):
-            if vid != 0:
-                continue
-            props = [O.Property(p.identifier, p.datatype, None, optional=p.optional, mutable=True)
-                     for pid, p in cls._properties.items() if pid not in KEEP]
-            M = type('Mut' + cls.__name__, (cls,), {'properties': props})
-            O.register_object_type(M, vendor_id=998)
-            _MUT[otype] = (cls, M)
-    return _MUT
-
-
-_TABLES = {}
-DEV_PIDS = ['objectName', 'vendorIdentifier', 'maxApduLengthAccepted', 'segmentationSupported', 'apduTimeout',
-            'numberOfApduRetries', 'vendorName', 'description', 'location', 'databaseRevision']
-
-
-def tables():
-    """coq/gen/ObjTables.v: the property descriptor list of every registered object class (as registered, and the
-    all-mutable subclass used by the harness) read from the imported classes; (re)compiled when its text changes.
-    Called before anything else is interned so that class ids and prototype codes are the same in every process."""
-    if _TABLES:
-        return _TABLES
-    import os, core
-    from bacpypes.local.device import LocalDeviceObject
-    assert not _CODES and not _CIDS
-    e = _ENV
-    P, C = e['P'], e['C']
-    cl = classes()
-    allcls = set()
-    for otype in sorted(cl):
-        for p in cl[otype][0]._properties.values():
-            for d in (p.datatype, getattr(p.datatype, 'subtype', None)):
-                if d is not None and isinstance(d, type) and issubclass(d, (C.Sequence, C.Choice)):
-                    allcls.add(d)
-    for k in sorted(allcls, key=lambda k: (k.__module__, k.__name__)):
-        cid(k)
-    lines = ['(* GENERATED by harness/props/c15.py tables() from the imported bacpypes.object classes — do not edit *)',
-             'From Bac Require Import Base Obj.', 'Open Scope Z_scope.', '']
-
-    def q_table(props):
-        return '[' + ';\n  '.join('mkP %d %s %s %s' % (pid_num(p.identifier), q_dt(dt_of(p.datatype)), q_bool(p.optional), q_bool(p.mutable))
-                                   for p in props) + ']'
-    for otype in sorted(cl):
-        for tag, K in zip('om', cl[otype]):
-            name = 'T_%s_%s' % (otype.replace('-', '_'), tag)
-            lines.append('Definition %s : list pdesc :=\n  %s.' % (name, q_table(list(K._properties.values()))))
-            _TABLES[K] = name
-    lines.append('Definition T_localdev : list pdesc :=\n  %s.' % q_table([LocalDeviceObject._properties[pid] for pid in DEV_PIDS]))
-    text = '\n'.join(lines) + '\n'
-    gen = os.path.join(core.COQ, 'gen')
-    os.makedirs(gen, exist_ok=True)
-    path = os.path.join(gen, 'ObjTables.v')
-    with core.BuildLock():
-        old = open(path).read() if os.path.exists(path) else None
-        vo = path + 'o'
-        objvo = os.path.join(core.COQ, 'theories', 'Obj.vo')
-        stale = old != text or not os.path.exists(vo) or (os.path.exists(objvo) and os.path.getmtime(objvo) > os.path.getmtime(vo))
-        if old != text:
-            open(path, 'w').write(text)
-        if stale and os.path.exists(objvo):
-            rc, out = core.run(['coqc'] + core.QFLAGS + ['gen/ObjTables.v'], cwd=core.COQ, timeout=1200)
-            if rc != 0:
-                raise RuntimeError('gen/ObjTables.v does not compile: ' + out[-1500:])
-    return _TABLES
-
-
 # ------------------------------------------------------------------ abstraction
-def atom_code(t):
-    if t.tagNumber == 2:
-        return int.from_bytes(bytes(t.tagData), 'big')
-    return code(('t', t.tagNumber, t.tagLVT, bytes(t.tagData)))
-
-
-def abs_elem(scls, v):
-    """abstract element: ('a',k,c) | ('o',k,c) | ('c',cid,c) | ('b',cid,err) | ('x',)"""
-    e = B()
-    P, C = e['P'], e['C']
-    if issubclass(scls, C.AnyAtomic):
-        if isinstance(v, P.Atomic) and not isinstance(v, C.AnyAtomic):
-            t = P.Tag(); v.encode(t)
-            return ('o', t.tagNumber, atom_code(t))
-        return ('x',)
-    if issubclass(scls, P.Atomic):
-        try:
-            t = P.Tag(); scls(v).encode(t)
-        except Exception:
-            return ('x',)
-        return ('a', t.tagNumber, atom_code(t))
-    if not isinstance(v, scls):
-        return ('x',)
-    try:
-        tl = P.TagList(); v.encode(tl)
-    except Exception as ex:
-        return ('b', cid(scls), exc_code(ex))
-    return ('c', cid(scls), code((scls.__name__, tuple(valgen.canon_tags(tl.tagList)))))
-
-
 def abs_val(dt, v):
     C = B()['C']
     if v is None:
@@ -187,55 +95,6 @@ def abs_val(dt, v):
     return ('s', abs_elem(dt, v))
 
 
-def sdt_of(cls):
-    e = B()
-    P, C = e['P'], e['C']
-    if issubclass(cls, C.AnyAtomic):
-        return ('any',)
-    if issubclass(cls, P.Atomic):
-        if issubclass(cls, P.Unsigned):
-            return ('atom', 2, cls._low_limit, cls._high_limit)
-        return ('atom', cls._app_tag, 0, None)
-    assert issubclass(cls, (C.Sequence, C.Choice)), cls
-    return ('cons', cid(cls))
-
-
-def proto_of(dt):
-    """what ArrayOf.fix_length appends"""
-    P = B()['P']
-    if issubclass(dt.subtype, P.Atomic):
-        v = dt.subtype().value if dt.prototype is None else dt.prototype
-    else:
-        v = dt.subtype() if dt.prototype is None else copy.deepcopy(dt.prototype)
-    return abs_elem(dt.subtype, v)
-
-
-def dt_of(dt):
-    C = B()['C']
-    if issubclass(dt, C.Array):
-        s = sdt_of(dt.subtype)
-        assert s[0] != 'any'
-        return ('array', s, dt.fixed_length, proto_of(dt))
-    if issubclass(dt, C.List):
-        s = sdt_of(dt.subtype)
-        assert s[0] != 'any'
-        return ('list', s)
-    return ('s', sdt_of(dt))
-
-
-# ---- Coq text
-def q_opt(x):
-    return 'None' if x is None else '(Some %d)' % x
-
-
-def q_elem(e):
-    if e[0] == 'a': return '(EAtom %d %d)' % (e[1], e[2])
-    if e[0] == 'o': return '(EObj %d %d)' % (e[1], e[2])
-    if e[0] == 'c': return '(ECons %d %d)' % (e[1], e[2])
-    if e[0] == 'b': return '(EBad %d %s)' % (e[1], ERRNAME[e[2]])
-    return '(EBad 0 OutOfFuel)'       # never produced by the model's own steps: forces a disagreement
-
-
 def q_elems(l):
     return '[' + ';'.join(q_elem(e) for e in l) + ']'
 
@@ -247,22 +106,6 @@ def q_val(v):
     if v[0] == 'arr': return '(VArr %d %s)' % (v[1], q_elems(v[2]))
     if v[0] == 'lst': return '(VLst %s)' % q_elems(v[1])
     return '(VS (EBad 0 OutOfFuel))'
-
-
-def q_sdt(s):
-    if s[0] == 'any': return 'SAny'
-    if s[0] == 'atom': return '(SAtom %d %d %s)' % (s[1], s[2], q_opt(s[3]))
-    return '(SCons %d)' % s[1]
-
-
-def q_dt(d):
-    if d[0] == 's': return '(DS %s)' % q_sdt(d[1])
-    if d[0] == 'list': return '(DList %s)' % q_sdt(d[1])
-    return '(DArray %s %s %s)' % (q_sdt(d[1]), q_opt(d[2]), q_elem(d[3]))
-
-
-def q_bool(b):
-    return 'true' if b else 'false'
 
 
 def q_res(r, f):
@@ -299,11 +142,6 @@ def elem_items(e):
     if e[0] in ('a', 'o'): return [[0, e[1], e[2]]]
     if e[0] == 'c': return [[1, e[1], e[2]]]
     return None
-
-
-def pid_num(name):
-    T = B()['T']
-    return T.PropertyIdentifier.enumerations[name] if isinstance(name, str) else int(name)
 
 
 def oid_num(oid):
@@ -849,6 +687,8 @@ def history_case(rng, nops=None, scenario=None):
 
 def cases(rng, tier):
     B(); classes()
+    if TABLE_TEXT_DIFFERS:
+        raise RuntimeError(TABLE_TEXT_DIFFERS[0])
     n = 2400 if tier == 'thorough' else 400
     out = [history_case(rng, nops=20, scenario=(bitstring_array_scenario, bitstring_array_ops)),
            history_case(rng, nops=60, scenario=(rpm_index0_setup, rpm_index0_ops))]
